@@ -144,7 +144,20 @@ func c09Exec(srcs []string, seed string) string {
 	if fr2.LoadErr != nil || fr2.LoadPanic != "" || fr2.Panic != "" {
 		return fmt.Sprintf("FAILED (restored run) load=%v %s panic=%s", fr2.LoadErr, fr2.LoadPanic, fr2.Panic)
 	}
-	return tracesString(fr) + "-- opened from a host-built snapshot --\n" + tracesString(fr2)
+	// ... and once more from a save file of another version of the script: visit counts of nodes that exist next to counts
+	// of nodes that do not (whether that is refused or not, the answer, the state it leaves and what follows do not vary)
+	fr3 := yc.FreeWalk(srcs, yc.FreeOpts{MaxSteps: 5, Seed: seed, NewStorer: func() variable.Storer { return variable.NewInMemoryStorer() },
+		Suffix: func(r *yc.Real, st variable.Storer) string { return storeSuffix(r, st) + " " + yc.SnapshotString(r) },
+		Setup: func(r *yc.Real, log *[]string) {
+			r.Next(0)
+			err := r.DR.RestoreAt(&ysgo.Snapshot{CurrentNode: "A", VisitedNodes: map[string]int{"A": 2, "Loop": 3, "N1": 1, "N2": 4, "gone": 5, "older": 1, "oldest": 7, "B": 2},
+				Variables: map[string]variable.Value{"a": *variable.NewNumber(1), "i": *variable.NewNumber(0)}})
+			*log = append(*log, fmt.Sprint("restore refused: ", err != nil), "state after it: "+yc.SnapshotString(r))
+		}})
+	if fr3.LoadErr != nil || fr3.LoadPanic != "" || fr3.Panic != "" {
+		return fmt.Sprintf("FAILED (run restored from a save of another version) load=%v %s panic=%s", fr3.LoadErr, fr3.LoadPanic, fr3.Panic)
+	}
+	return tracesString(fr) + "-- opened from a host-built snapshot --\n" + tracesString(fr2) + "-- opened from a save of another version --\n" + tracesString(fr3)
 }
 
 var c09OtherSrc = []string{"title: X\n---\n{dice(6)} {dice(6)}\n[nomarkup][b]raw[/b][/nomarkup] {random()}\n{random_range(1,100)} [b]x[/b]\n===\n"}
